@@ -19,6 +19,10 @@ func main() {
 		fmt.Fprintln(os.Stderr, "usage: harness <property> [-seed n] [-tier quick|thorough] [-out dir] [-replay file]")
 		os.Exit(2)
 	}
+	if os.Args[1] == "CHILD" {
+		runChildMain()
+		return
+	}
 	if os.Args[1] == "C19CHILD" {
 		runC19Child()
 		return
